@@ -51,32 +51,32 @@ func (i *interpreter) nondet(fr *frame, name string, lo, hi int64, k types.Basic
 	}
 	var t *sym.Term
 	var rng *sym.Term
+	// the solver-level name carries the range: the same harness name may be declared with
+	// different ranges on different paths (never twice on one path)
+	smtName := fmt.Sprintf("%s@%d:%d", name, lo, hi)
 	if k == types.Bool {
-		t = c.VarBool(name)
+		smtName = name
+		t = c.VarBool(smtName)
 		rng = c.True
 	} else if i.math {
-		t = c.VarInt(name, lo, hi)
-		if t.Lo != lo || t.Hi != hi {
-			panic(unsupported("nondet " + name + " re-declared with a different range"))
-		}
+		t = c.VarInt(smtName, lo, hi)
 		rng = c.RangeConstraint(t, lo, hi)
 	} else {
 		w := kindBits(k)
 		if lo >= 0 {
-			t = c.VarBVRange(name, w, uint64(lo), uint64(hi))
-			if t.ULo != uint64(lo) || t.UHi != uint64(hi) {
-				panic(unsupported("nondet " + name + " re-declared with a different range"))
-			}
+			t = c.VarBVRange(smtName, w, uint64(lo), uint64(hi))
 			rng = c.RangeConstraint(t, lo, hi)
 		} else {
-			t = c.VarBV(name, w)
+			t = c.VarBV(smtName, w)
 			rng = c.RangeConstraint(t, lo, hi)
 		}
 	}
-	if _, dup := e.ndIndex[name]; !dup {
+	if j, dup := e.ndIndex[name]; !dup {
 		e.ndIndex[name] = len(e.nondets)
-		e.nondets = append(e.nondets, nondetInfo{name: name, t: t, lo: lo, hi: hi, k: int(k)})
+		e.nondets = append(e.nondets, nondetInfo{name: name, smt: smtName, t: t, lo: lo, hi: hi, k: int(k)})
 		e.assertHere(rng)
+	} else if e.nondets[j].smt != smtName {
+		panic(unsupported("nondet " + name + " declared twice on one path with different ranges"))
 	}
 	return sv{t, k}
 }
